@@ -336,6 +336,20 @@ func (e *Eng) boundVal(t types.Type, hint string) (Val, []string) {
 func calleeOf(cc *ssa.CallCommon) ssa.Value { return cc.Value }
 
 func (e *Eng) doCall(fr *Frame, st *State, instr ssa.Instruction, cc *ssa.CallCommon, mode string) {
+	// package-level locks: every session of the process shares them.  Lock / Unlock on a package-level mutex set
+	// and clear a token; a call that waits for a peer while the token is set is a failed obligation (below).
+	if !fr.pure && len(cc.Args) > 0 && !cc.IsInvoke() {
+		switch calleeName(cc) {
+		case "(*sync.Mutex).Lock", "(*sync.RWMutex).Lock", "(*sync.RWMutex).RLock":
+			if isGlobalAddr(cc.Args[0]) {
+				e.hstore(st, "G|holds_globallock", nil, types.Typ[types.Bool], T("true"))
+			}
+		case "(*sync.Mutex).Unlock", "(*sync.RWMutex).Unlock", "(*sync.RWMutex).RUnlock":
+			if isGlobalAddr(cc.Args[0]) {
+				e.hstore(st, "G|holds_globallock", nil, types.Typ[types.Bool], T("false"))
+			}
+		}
+	}
 	// `nocall X`: a reachable call of X from this function (or from a closure it runs) is a failed obligation
 	if !fr.pure && e.fc != nil && len(e.fc.NoCalls) > 0 && !e.collect {
 		name := calleeName(cc)
@@ -1086,6 +1100,14 @@ func (e *Eng) applyContract(fr *Frame, st *State, instr ssa.Instruction, fc *Fun
 	if fn := e.w.FnOf[fc]; fn != nil {
 		disp = fnDisplayName(fn)
 	}
+	// a call that waits for a peer must not be made while a package-level lock is held (one stalled peer would
+	// stop every other session at that lock)
+	if fc.Blocks != "" && !fr.pure && !e.collect && mode != "go" {
+		if _, used := e.heapNames["G|holds_globallock"]; used {
+			held := e.heapTerm(st, "G|holds_globallock", "Bool")
+			e.oblige(st, "lock.blocking", "["+disp0(e, fc, key)+"]", e.allProps(), tNot(held), instr, "no package-level lock is held across a call that "+fc.Blocks)
+		}
+	}
 	// results the callee's protocol obliges the caller to look at
 	if len(fc.MustUse) > 0 && !fr.pure && fr.fn == e.fn && !e.collect && sig != nil {
 		if call, ok := instr.(*ssa.Call); ok {
@@ -1173,7 +1195,7 @@ func (e *Eng) applyContract(fr *Frame, st *State, instr ssa.Instruction, fc *Fun
 		o.PreText = func() string { return q.Snapshot(preN, preReach, nil) }
 	}()
 	// frame
-	if !fc.HasMod {
+	if !fc.HasMod || fc.StoresOnly {
 		e.callFrameCheck(fr, st, instr, nil, disp, nil)
 		e.havocAll(st, key)
 	} else {
@@ -1664,6 +1686,9 @@ func (e *Eng) checkFrameMap(fr *Frame, st *State, m *MapV, in ssa.Instruction) {
 func (e *Eng) callFrameCheck(fr *Frame, st *State, in ssa.Instruction, t *modTarget, callee string, old *State) {
 	if !e.frameActive(fr) {
 		return
+	}
+	if e.fc != nil && e.fc.StoresOnly && len(e.activeFrames(fr)) == 1 {
+		return // the function's frame speaks about its own stores only
 	}
 	if t == nil || t.kind == "all" {
 		for _, f := range e.activeFrames(fr) {
@@ -2276,6 +2301,29 @@ func (e *Eng) localAt(fr *Frame, st *State, at ssa.Instruction, name string) Val
 	panic(unsupportedErr{fmt.Sprintf("callsite clause in %s: cannot resolve local %q", e.fn, name)})
 }
 
+
+func disp0(e *Eng, fc *FuncContract, key string) string {
+	if fn := e.w.FnOf[fc]; fn != nil {
+		return fnDisplayName(fn)
+	}
+	return key
+}
+
+// isGlobalAddr: the address of a package-level variable or of a field / element inside one.
+func isGlobalAddr(v ssa.Value) bool {
+	for {
+		switch x := v.(type) {
+		case *ssa.Global:
+			return true
+		case *ssa.FieldAddr:
+			v = x.X
+		case *ssa.IndexAddr:
+			v = x.X
+		default:
+			return false
+		}
+	}
+}
 
 // specResultNames: the result names written in an extern / iface contract header "(params) (results)".
 func specResultNames(sig string) []string {
